@@ -79,10 +79,12 @@ type rowP struct { // header permutation shape
 
 var (
 	catStrings = []string{"", "a", "a,b", `say "hi"`, "line1\nline2", " lead", "trail ", "üñí€", ",", `"`}
-	catF64     = []float64{0, math.Copysign(0, -1), 5e-324, math.MaxFloat64, -math.MaxFloat64, 0.1, 1e21, 1.0 / 3, 123456789.125, math.Inf(1), math.NaN()}
-	catF32     = []float32{0, float32(math.Copysign(0, -1)), math.SmallestNonzeroFloat32, math.MaxFloat32, 0.1, 16777217, math.Nextafter32(1, 2), float32(math.Inf(-1))}
-	catTimes   = []time.Time{{}, time.Date(1999, 12, 31, 23, 59, 59, 0, time.UTC), time.Date(2024, 2, 29, 12, 0, 0, 0, time.UTC), time.Date(9999, 12, 31, 0, 0, 1, 0, time.UTC)}
-	catDates   = []time.Time{{}, time.Date(2000, 1, 1, 0, 0, 0, 0, time.UTC), time.Date(2024, 2, 29, 0, 0, 0, 0, time.UTC), time.Date(2038, 1, 19, 0, 0, 0, 0, time.UTC)}
+	// strings that look like something else to a lenient reader: missing-value markers, numbers, booleans, comments
+	catLookalikes = []string{"null", "NULL", "nil", "NaN", "N/A", "-", "0", "1e5", "true", "#x", "2024-01-02", "\\N", "=1+1"}
+	catF64        = []float64{0, math.Copysign(0, -1), 5e-324, math.MaxFloat64, -math.MaxFloat64, 0.1, 1e21, 1.0 / 3, 123456789.125, math.Inf(1), math.NaN()}
+	catF32        = []float32{0, float32(math.Copysign(0, -1)), math.SmallestNonzeroFloat32, math.MaxFloat32, 0.1, 16777217, math.Nextafter32(1, 2), float32(math.Inf(-1))}
+	catTimes      = []time.Time{{}, time.Date(1999, 12, 31, 23, 59, 59, 0, time.UTC), time.Date(2024, 2, 29, 12, 0, 0, 0, time.UTC), time.Date(9999, 12, 31, 0, 0, 1, 0, time.UTC)}
+	catDates      = []time.Time{{}, time.Date(2000, 1, 1, 0, 0, 0, 0, time.UTC), time.Date(2024, 2, 29, 0, 0, 0, 0, time.UTC), time.Date(2038, 1, 19, 0, 0, 0, 0, time.UTC)}
 )
 
 func valEq(a, b reflect.Value) bool {
@@ -640,6 +642,20 @@ func init() {
 					}
 				}
 				rtUnit(c, "struct{string,string,bool}", rows, nil)
+			}})
+			us = append(us, core.Unit{Key: "csv-lookalike-strings", Cost: 10, Run: func(c *core.Ctx) {
+				var rows []*rowS
+				for _, a := range catLookalikes {
+					for _, b := range []string{"x", a} {
+						rows = append(rows, &rowS{a, b, len(a)%2 == 0}, &rowS{b, a, true})
+					}
+				}
+				rtUnit(c, "struct{string,string,bool} with look-alike strings", rows, nil)
+				var ones []*row1
+				for _, a := range catLookalikes {
+					ones = append(ones, &row1{a})
+				}
+				rtUnit(c, "struct{string} with look-alike strings", ones, nil)
 			}})
 			us = append(us, core.Unit{Key: "csv-ints", Cost: 20, Run: func(c *core.Ctx) {
 				var rows []*rowI
